@@ -40,7 +40,7 @@ def bounds(tier):
 
 def cases(shard, tier):
     d, src = shard['dtype'], shard['src']
-    casts = c03.CASTS[d][:2] if tier == 'quick' else c03.CASTS[d]
+    casts = c03.CASTS[d][:2] if tier == 'quick' else c03.CASTS[d][:3]
     chunks = [None, 1] if tier == 'quick' else [None, 1, 2, 3]
     wins = [None, (1, 2)] if tier == 'quick' else [None, (1, 2), (0, 2), (1, 3), (2, 3)]
     layouts = ['C', 'F', 'strided', 'readonly', 'view'] if src in ('inline', 'dict', 'mixed') else ['C', 'readonly']
